@@ -1,6 +1,7 @@
 package main
 
 import (
+	"bufio"
 	"crypto/ecdsa"
 	"crypto/elliptic"
 	"crypto/rand"
@@ -22,7 +23,9 @@ import (
 
 	"github.com/Cloud-Foundations/golib/pkg/log/testlogger"
 	"github.com/Cloud-Foundations/keymaster/lib/authenticators/okta"
+	"github.com/Cloud-Foundations/keymaster/lib/paths"
 	"github.com/pquerna/otp/totp"
+	"golang.org/x/net/html"
 )
 
 // a VIP user service that knows one enabled token per user and accepts every code
@@ -142,6 +145,129 @@ func c17Encoded() []string {
 	return out
 }
 
+// the path starts that matter right behind an authority: whatever a reduction of "scheme://own-host<path>"
+// to "<path>" would hand to http.Redirect
+func c17PathStarts() []string {
+	return []string{"", "/", "/profile/", "/idp/oauth2/authorize?client_id=x&scope=openid", "//evil.example/x", "///evil.example/x",
+		"/\\evil.example/x", "/%2Fevil.example/x", "/%2f%2fevil.example/x", "/%5Cevil.example/x", "/.//evil.example/x", "/a/..//evil.example/x",
+		"//evil.example/x?y=//z", "/\t/evil.example/x", "/@evil.example/x", "//evil.example", "//evil.example/..", "/;/evil.example", "//evil.example:443/x#f"}
+}
+
+// the names under which a request may address this server: r.Host as sent, with the default port, upper case,
+// with a trailing dot, behind user-info, and one that only looks alike
+func c17OwnHosts(host string) []string {
+	bare := host
+	if i := strings.LastIndex(bare, ":"); i > 0 {
+		bare = bare[:i]
+	}
+	return []string{host, bare, bare + ":443", strings.ToUpper(bare), bare + ".", "user@" + bare, "user:pw@" + bare, bare + ":8443", bare + ".evil.example"}
+}
+
+func c17Schemes() []string {
+	return []string{"https://", "HTTPS://", "http://", "//", "https:/", "https:", "https:///", "ftp://"}
+}
+
+// absolute and scheme-relative URLs naming the server's own host, combined with every dangerous path start
+// (the short list and every raw/percent-encoded pair of the enumeration above)
+func c17OwnHostURLs(host string, full bool) []string {
+	var out []string
+	paths := c17PathStarts()
+	enc := c17Encoded()
+	for _, sch := range c17Schemes() {
+		for _, h := range c17OwnHosts(host) {
+			for _, p := range paths {
+				out = append(out, sch+h+p)
+			}
+			if full && (sch == "https://" || sch == "//" || sch == "HTTPS://") && !strings.Contains(h, "evil") && !strings.Contains(h, "8443") {
+				for _, p := range enc {
+					out = append(out, sch+h+p)
+				}
+			}
+		}
+	}
+	return out
+}
+
+// what the HTTP/1.1 server itself makes of a request line (origin-form, absolute-form, ...): the same parser
+func c17RawRequest(method, target, host string, body string) (*http.Request, error) {
+	raw := method + " " + target + " HTTP/1.1\r\nHost: " + host + "\r\n"
+	if body != "" {
+		raw += "Content-Type: application/x-www-form-urlencoded\r\nContent-Length: " + fmt.Sprint(len(body)) + "\r\n"
+	}
+	raw += "\r\n" + body
+	req, err := http.ReadRequest(bufio.NewReader(strings.NewReader(raw)))
+	if err != nil {
+		return nil, err
+	}
+	req.RemoteAddr = "10.1.2.3:34567"
+	return req, nil
+}
+
+// the forms of an HTML page as a browser would submit them: action -> named input values
+func c17Forms(body []byte) map[string]url.Values {
+	out := map[string]url.Values{}
+	doc, err := html.Parse(strings.NewReader(string(body)))
+	if err != nil {
+		return out
+	}
+	var walk func(n *html.Node, cur url.Values)
+	walk = func(n *html.Node, cur url.Values) {
+		if n.Type == html.ElementNode && n.Data == "form" {
+			action := ""
+			for _, a := range n.Attr {
+				if a.Key == "action" {
+					action = a.Val
+				}
+			}
+			cur = url.Values{}
+			out[action] = cur
+		}
+		if n.Type == html.ElementNode && n.Data == "input" && cur != nil {
+			name, val, typ := "", "", ""
+			for _, a := range n.Attr {
+				switch a.Key {
+				case "name":
+					name = a.Val
+				case "value":
+					val = a.Val
+				case "type":
+					typ = strings.ToLower(a.Val)
+				}
+			}
+			if name != "" && typ != "submit" {
+				cur.Add(name, val)
+			}
+		}
+		for c := n.FirstChild; c != nil; c = c.NextSibling {
+			walk(c, cur)
+		}
+	}
+	walk(doc, nil)
+	return out
+}
+
+func c17Env(t *testing.T, providerURL string, force bool, more func(c *AppConfigFile, dir string)) *verifEnv {
+	return verifSetup(t, func(c *AppConfigFile, dir string) {
+		c.Oauth2.Enabled = true
+		c.Oauth2.ForceRedirect = force
+		c.Oauth2.ClientID = "keymaster"
+		c.Oauth2.ClientSecret = "secret"
+		c.Oauth2.AuthUrl = providerURL + "/auth"
+		c.Oauth2.TokenUrl = providerURL + "/token"
+		c.Oauth2.UserinfoUrl = providerURL + "/userinfo"
+		c.Oauth2.Scopes = "openid"
+		c.Base.AllowedAuthBackendsForWebUI = []string{"password"}
+		c.Base.AllowedAuthBackendsForCerts = []string{"U2F"}
+		c.Base.AdminUsers = []string{"admin"}
+		c.Base.PasswordAttemptGlobalBurstLimit = 1000000
+		c.Base.PasswordAttemptGlobalRateLimit = 1000000
+		c.Base.WebauthTokenForCliLifetime = time.Hour // registers /showAuthToken and /sendAuthDocument
+		if more != nil {
+			more(c, dir)
+		}
+	})
+}
+
 func TestVerif_C17(t *testing.T) {
 	res := newVerifResult("login_destination strings: exhaustive over {/ \\\\ . a TAB ? # % : @}^<=L (L=4 quick, 5 thorough) through getLoginDestination+http.Redirect, a structured adversarial list, every raw/percent-encoded pair of dangerous bytes after the leading slash, and seeded random strings through POST /api/v0/login (text/html); the federated-login flow; the success path of every redirecting second-factor handler (bootstrap OTP, TOTP, VIP, Okta) with hostile values in the form field, the query string, Referer, Origin and forwarding headers; non-trivial = the filter accepted the string (redirect target differs from the profile page); distinct by (input, Location)")
 	// a fake OAuth2 provider for the federated-login flow
@@ -157,19 +283,7 @@ func TestVerif_C17(t *testing.T) {
 		}
 	}))
 	defer provider.Close()
-	env := verifSetup(t, func(c *AppConfigFile, dir string) {
-		c.Oauth2.Enabled = true
-		c.Oauth2.ClientID = "keymaster"
-		c.Oauth2.ClientSecret = "secret"
-		c.Oauth2.AuthUrl = provider.URL + "/auth"
-		c.Oauth2.TokenUrl = provider.URL + "/token"
-		c.Oauth2.UserinfoUrl = provider.URL + "/userinfo"
-		c.Oauth2.Scopes = "openid"
-		c.Base.AllowedAuthBackendsForWebUI = []string{"password"}
-		c.Base.AllowedAuthBackendsForCerts = []string{"U2F"}
-		c.Base.AdminUsers = []string{"admin"}
-		c.Base.PasswordAttemptGlobalBurstLimit = 1000000
-		c.Base.PasswordAttemptGlobalRateLimit = 1000000
+	env := c17Env(t, provider.URL, false, func(c *AppConfigFile, dir string) {
 		// every second-factor handler that redirects to the supplied destination must be reachable
 		c.Base.EnableLocalTOTP = true
 		k, _ := ecdsa.GenerateKey(elliptic.P256(), rand.Reader)
@@ -217,10 +331,13 @@ func TestVerif_C17(t *testing.T) {
 		via     string
 	}
 	var all []obs
+	ship := true // bulk function-level sweeps ship a sample (and every deviation from the profile page) to Coq
 	record := func(in, loc, via string, redirected bool) {
 		_, perr := url.Parse(in)
 		o := obs{in: in, loc: loc, pf: perr != nil, via: via}
-		all = append(all, o)
+		if ship {
+			all = append(all, o)
+		}
 		nontrivial := redirected && loc != profilePath
 		res.eval(in+"\x00"+loc, nontrivial)
 		res.bump("via:" + via)
@@ -247,8 +364,38 @@ func TestVerif_C17(t *testing.T) {
 		record(s, rr.Header().Get("Location"), "getLoginDestination", true)
 	}
 	res.Exhaustive = true
+	// (1b) absolute and scheme-relative URLs naming this server's own host (as sent in Host, with port, upper
+	// case, trailing dot, user-info) x every dangerous path start: the filter accepts none of them (the model
+	// says: profile page).  The same-origin oracle looks at every one; Coq gets every deviation from the profile
+	// page and a sample of the rest.
+	deviations := 0
+	for _, hostHeader := range []string{"keymaster.example", "keymaster.example:443"} {
+		for i, s := range c17OwnHostURLs(hostHeader, true) {
+			form := url.Values{}
+			form.Set("login_destination", s)
+			req := verifNewRequest("POST", "/api/v0/login", form)
+			req.Host = hostHeader
+			req.ParseForm()
+			d := getLoginDestination(req)
+			rr := httptest.NewRecorder()
+			http.Redirect(rr, req, d, 302)
+			loc := rr.Header().Get("Location")
+			ship = i%83 == 0
+			if loc != profilePath && deviations < 150 {
+				deviations++
+				ship = true
+			}
+			record(s, loc, "getLoginDestination:own-host-url", true)
+		}
+	}
+	ship = true
 	// (2) through the real login handler
 	httpCases := append(c17Structured(), c17Encoded()...)
+	for _, s := range c17OwnHostURLs("keymaster.example", false) {
+		if strings.HasPrefix(s, "https://") || strings.HasPrefix(s, "//") || strings.HasPrefix(s, "HTTPS://") || strings.HasPrefix(s, "http://") {
+			httpCases = append(httpCases, s)
+		}
+	}
 	rng := verifRand()
 	alpha := []byte("/\\.a\t?#%:@\r\n\x00 e;=&+\x7f\xc3\xa9A0-_~25FfCc")
 	for i := 0; i < nRandom; i++ {
@@ -276,6 +423,25 @@ func TestVerif_C17(t *testing.T) {
 			continue
 		}
 		record(s, rr.Header().Get("Location"), "loginHandler", true)
+	}
+	// the same through a request whose Host header carries the port
+	for _, s := range c17OwnHostURLs("keymaster.example:443", false) {
+		if !strings.HasPrefix(s, "https://") && !strings.HasPrefix(s, "//") {
+			continue
+		}
+		form := url.Values{}
+		form.Set("username", "alice")
+		form.Set("password", "alicepw")
+		form.Set("login_destination", s)
+		req := verifNewRequest("POST", "/api/v0/login", form)
+		req.Host = "keymaster.example:443"
+		req.Header.Set("Accept", "text/html")
+		rr, _ := env.serve(req)
+		if rr.Code != 302 {
+			res.hit(verifHit{Key: "C17:harness:login-status", Oracle: "harness", What: fmt.Sprintf("login did not redirect: %d", rr.Code), Case: s})
+			continue
+		}
+		record(s, rr.Header().Get("Location"), "loginHandler:host-with-port", true)
 	}
 	// (3) federated login: begin -> (optionally begin again, with the setup cookie of the first
 	// attempt) -> provider callback; the destination is parked server side in between
@@ -315,6 +481,15 @@ func TestVerif_C17(t *testing.T) {
 		return rr.Header().Get("Location"), true
 	}
 	oauthDests := c17Structured()
+	var ownHostFew []string // own-host URLs for the multi-step flows
+	for _, sch := range []string{"https://", "//"} {
+		for _, h := range []string{"keymaster.example", "KEYMASTER.EXAMPLE", "keymaster.example:443", "user@keymaster.example"} {
+			for _, p := range []string{"//evil.example/x", "/%2Fevil.example/x", "/profile/", "/\\evil.example/x"} {
+				ownHostFew = append(ownHostFew, sch+h+p)
+			}
+		}
+	}
+	oauthDests = append(oauthDests, ownHostFew...)
 	for i, d := range oauthDests {
 		if c, st, ok := oauthBegin(d, nil); ok {
 			if loc, ok := oauthCallback(c, st); ok {
@@ -470,6 +645,7 @@ func TestVerif_C17(t *testing.T) {
 			twoFAForm = append(twoFAForm, s)
 		}
 	}
+	twoFAForm = append(twoFAForm, ownHostFew...)
 	for _, pr := range provers {
 		for _, h := range twoFA {
 			for _, ch := range []string{"form", "query", "referer-same-host", "referer-same-host-query", "origin+referer", "forwarded"} {
@@ -481,6 +657,276 @@ func TestVerif_C17(t *testing.T) {
 		}
 		if res.counts["2fa:redirected:"+pr.name] == 0 {
 			res.hit(verifHit{Key: "C17:harness:no-success:" + pr.name, Oracle: "harness", What: "the success path of this second-factor handler was never reached", Case: pr.name})
+		}
+	}
+
+	// (5) the login prompt of a protected page, followed through the whole provider round trip, for both values
+	// of oauth2.force_redirect and every form of the request target (origin-form, absolute-form naming this host,
+	// absolute-form naming a foreign host, "//host/path").  The model: the prompt is always the login page; what
+	// the browser posts back from it goes through the filter into the pending login; the callback's Location is
+	// location(posted).  The oracle looks at the final Location.
+	type flowObs struct {
+		force, comeback bool
+		u               string
+		kind            int
+		posted          string
+		pf              bool
+		loc             string
+		desc            string
+	}
+	var flows []flowObs
+	type pageObs struct {
+		comeback             bool
+		u, eu, eprof, hidden string
+		desc                 string
+	}
+	var pages []pageObs
+	envForce := c17Env(t, provider.URL, true, nil)
+	flowPages := []struct {
+		path     string
+		comeback bool
+	}{
+		{idpOpenIDCAuthorizationPath + "?client_id=x&scope=openid&response_type=code&redirect_uri=https%3A%2F%2Fa.example%2Fcb", true},
+		{paths.ShowAuthToken, true},
+		{paths.ShowAuthToken + "?x=//evil.example/", true},
+		{paths.SendAuthDocument + "?port=1234&token=x", true},
+		{profilePath, false},
+		{"/", false},
+	}
+	targetForms := []struct{ name, prefix, host string }{
+		{"origin-form", "", "keymaster.example"},
+		{"origin-form:host-with-port", "", "keymaster.example:443"},
+		{"absolute-form:own-host", "https://keymaster.example", "keymaster.example"},
+		{"absolute-form:own-host-upper-port", "https://KEYMASTER.EXAMPLE:443", "keymaster.example"},
+		{"absolute-form:foreign-host", "https://evil.example", "keymaster.example"},
+		{"absolute-form:foreign-host-http", "http://evil.example:8080", "keymaster.example"},
+		{"absolute-form:foreign-userinfo", "https://keymaster.example@evil.example", "keymaster.example"},
+		{"double-slash-host", "//evil.example", "keymaster.example"},
+	}
+	callbackOn := func(e *verifEnv, cookie *http.Cookie, st string) (string, bool) {
+		q := url.Values{}
+		q.Set("state", st)
+		q.Set("code", "abc")
+		req := verifNewRequest("GET", redirectPath, q)
+		req.AddCookie(&http.Cookie{Name: cookie.Name, Value: cookie.Value})
+		rr, _ := e.serve(req)
+		if rr.Code != 302 {
+			return "", false
+		}
+		return rr.Header().Get("Location"), true
+	}
+	providerRedirect := func(rr *httptest.ResponseRecorder) (cookie *http.Cookie, st string, ok bool) {
+		if rr.Code < 300 || rr.Code > 399 || !strings.HasPrefix(rr.Header().Get("Location"), provider.URL+"/auth") {
+			return nil, "", false
+		}
+		u, err := url.Parse(rr.Header().Get("Location"))
+		if err != nil {
+			return nil, "", false
+		}
+		for _, c := range rr.Result().Cookies() {
+			if c.Name == redirCookieName {
+				cookie = c
+			}
+		}
+		return cookie, u.Query().Get("state"), cookie != nil
+	}
+	for _, cfg := range []struct {
+		force bool
+		e     *verifEnv
+	}{{false, env}, {true, envForce}} {
+		for _, pg := range flowPages {
+			for _, tf := range targetForms {
+				// GET without and with a useless cookie; POST carrying a login_destination field of its own
+				for _, variant := range []struct{ method, cookieKind, formDest string }{
+					{"GET", "none", ""}, {"GET", "garbage", ""},
+					{"POST", "none", "//evil.example/x"}, {"POST", "none", "/ok?next=1"}, {"POST", "none", "https://evil.example/"},
+				} {
+					cookieKind := variant.cookieKind
+					desc := fmt.Sprintf("force_redirect=%v %s %s%s (%s) cookie=%s", cfg.force, variant.method, tf.prefix, pg.path, tf.name, cookieKind)
+					body := ""
+					if variant.method == "POST" {
+						body = "login_destination=" + url.QueryEscape(variant.formDest)
+						desc += " body=" + body
+					}
+					req, err := c17RawRequest(variant.method, tf.prefix+pg.path, tf.host, body)
+					if err != nil {
+						res.bump("flow:unparsable-request-line:" + tf.name)
+						continue
+					}
+					req.Header.Set("Accept", "text/html")
+					if cookieKind == "garbage" {
+						req.AddCookie(&http.Cookie{Name: authCookieName, Value: "x.y.z"})
+					}
+					ustr := req.URL.String()
+					rr, _ := cfg.e.serve(req)
+					fo := flowObs{force: cfg.force, comeback: pg.comeback, u: ustr, desc: desc}
+					via := fmt.Sprintf("prompt-flow:force_redirect=%v:%s", cfg.force, tf.name)
+					finish := func(loc string) {
+						fo.loc = loc
+						_, perr := url.Parse(fo.posted)
+						fo.pf = perr != nil
+						flows = append(flows, fo)
+						nontrivial := loc != profilePath
+						res.eval("flow\x00"+desc+"\x00"+loc, nontrivial)
+						res.bump("via:" + via)
+						if !verifSameOrigin(loc) {
+							res.hit(verifHit{Key: "C17:offorigin:" + via, Oracle: "Location at the end of the federated round trip resolves off the keymaster origin (WHATWG) or carries control bytes",
+								What: fmt.Sprintf("%s; r.URL.String()=%q; the prompt %s; posted login_destination %q; callback Location %q", desc, ustr, map[int]string{0: "was the login page", 1: "went to the provider by itself"}[fo.kind], fo.posted, loc),
+								Case: map[string]interface{}{"request_line": variant.method + " " + tf.prefix + pg.path + " HTTP/1.1", "host": tf.host, "body": body, "force_redirect": cfg.force, "cookie": cookieKind}, Observed: loc})
+						}
+					}
+					if c, st, ok := providerRedirect(rr); ok {
+						// the prompt started the federated login by itself
+						fo.kind = 1
+						if loc, ok := callbackOn(cfg.e, c, st); ok {
+							finish(loc)
+						} else {
+							res.bump("flow:callback-failed")
+						}
+						continue
+					}
+					if rr.Code >= 300 && rr.Code <= 399 {
+						// a redirect of the multiplexer itself (path cleaning): not a login redirect, but it must stay here too
+						loc := rr.Header().Get("Location")
+						res.eval("flow-mux\x00"+desc+"\x00"+loc, false)
+						res.bump("flow:mux-redirect")
+						if !verifSameOrigin(loc) {
+							res.hit(verifHit{Key: "C17:offorigin:mux-redirect:" + tf.name, Oracle: "Location resolves off the keymaster origin", What: desc + " -> " + loc, Case: desc, Observed: loc})
+						}
+						continue
+					}
+					if rr.Code != 401 {
+						res.bump(fmt.Sprintf("flow:status-%d", rr.Code))
+						continue
+					}
+					forms := c17Forms(rr.Body.Bytes())
+					if f, ok := forms[oauth2LoginBeginPath]; ok {
+						fo.posted = f.Get("login_destination")
+						if variant.method == "GET" {
+							pages = append(pages, pageObs{comeback: pg.comeback, u: ustr, eu: ensureHTMLSafeLoginDestination(ustr), eprof: ensureHTMLSafeLoginDestination(profilePath), hidden: fo.posted, desc: desc})
+						}
+						preq := verifNewRequest("POST", oauth2LoginBeginPath, f)
+						prr, _ := cfg.e.serve(preq)
+						if c, st, ok := providerRedirect(prr); ok {
+							if loc, ok := callbackOn(cfg.e, c, st); ok {
+								finish(loc)
+							} else {
+								res.bump("flow:callback-failed")
+							}
+						} else {
+							res.hit(verifHit{Key: "C17:harness:flow-begin", Oracle: "harness", What: fmt.Sprintf("submitting the login page's federated-login form did not lead to the provider: %d", prr.Code), Case: desc})
+						}
+					} else {
+						res.bump("flow:401-without-login-page") // e.g. a Host naming another port: plain 401, no page, nothing to follow
+					}
+					// the password form of the same page (when it is shown)
+					if f, ok := forms["/api/v0/login"]; ok && cookieKind == "none" && variant.method == "GET" {
+						f.Set("username", "alice")
+						f.Set("password", "alicepw")
+						preq := verifNewRequest("POST", "/api/v0/login", f)
+						preq.Header.Set("Accept", "text/html")
+						prr, _ := cfg.e.serve(preq)
+						if prr.Code == 302 {
+							record(f.Get("login_destination"), prr.Header().Get("Location"), "prompt-page:password-form", true)
+						}
+					}
+				}
+			}
+		}
+	}
+	for _, force := range []bool{false, true} {
+		for _, tfn := range []string{"origin-form", "absolute-form:own-host", "absolute-form:foreign-host"} {
+			if res.counts[fmt.Sprintf("via:prompt-flow:force_redirect=%v:%s", force, tfn)] == 0 {
+				res.hit(verifHit{Key: "C17:harness:no-flow", Oracle: "harness", What: "no prompt flow of this shape reached the callback", Case: fmt.Sprintf("force_redirect=%v %s", force, tfn)})
+			}
+		}
+	}
+	// (5b) the same pages asked for by a browser that holds a password-only session while the web UI wants a
+	// second factor: the answer is the second-factor page, whose hidden login_destination is again r.URL.String();
+	// each of its forms that one of the provers can answer is submitted as a browser would (fresh code, same
+	// session) and the redirect after the accepted factor is compared with location(hidden value)
+	savedWebUI := env.state.Config.Base.AllowedAuthBackendsForWebUI
+	env.state.Config.Base.AllowedAuthBackendsForWebUI = []string{"U2F"}
+	for _, pg := range flowPages {
+		for _, tf := range targetForms {
+			for _, pr := range provers {
+				req, err := c17RawRequest("GET", tf.prefix+pg.path, tf.host, "")
+				if err != nil {
+					continue
+				}
+				req.Header.Set("Accept", "text/html")
+				session := env.cookie(pr.user, AuthTypePassword)
+				req.AddCookie(session)
+				target, otp := pr.prep() // first: the page offers the bootstrap-OTP form only to a user who has one
+				rr, _ := env.serve(req)
+				if rr.Code != 401 {
+					pr.done()
+					res.bump(fmt.Sprintf("2fa-page:status-%d", rr.Code))
+					continue
+				}
+				f, ok := c17Forms(rr.Body.Bytes())[target]
+				if !ok || otp == "" {
+					pr.done()
+					res.bump("2fa-page:no-form:" + pr.name)
+					continue
+				}
+				f.Set("OTP", otp)
+				preq := verifNewRequest("POST", target, f)
+				preq.Header.Set("Accept", "text/html")
+				preq.AddCookie(session)
+				prr, _ := env.serve(preq)
+				pr.done()
+				if prr.Code != 302 {
+					res.bump("2fa-page:not-redirected:" + pr.name)
+					continue
+				}
+				res.bump("2fa-page:redirected:" + pr.name)
+				record(f.Get("login_destination"), prr.Header().Get("Location"), "prompt-2fa-page:"+pr.name+":"+tf.name, true)
+			}
+		}
+	}
+	env.state.Config.Base.AllowedAuthBackendsForWebUI = savedWebUI
+	// (the failure path never offers the bootstrap-OTP form; the other three must be reached)
+	for _, pr := range provers {
+		if pr.name != "bootstrapOtp" && res.counts["2fa-page:redirected:"+pr.name] == 0 {
+			res.hit(verifHit{Key: "C17:harness:no-2fa-page-flow:" + pr.name, Oracle: "harness", What: "the second-factor page of a protected page never led to a redirect through this handler", Case: pr.name})
+		}
+	}
+	// (6) logoutHandler: Location "/?user=<name in the session>"; the name is whatever the password backend or the
+	// identity provider admitted.  Names without control bytes must stay on the origin (theorem c17_logout).
+	type logoutObs struct {
+		user, loc string
+		pf        bool
+	}
+	var logouts []logoutObs
+	for _, u := range []string{"alice", "", "a&b=c", "a#frag", "//evil.example", "\\evil.example", "/\\evil.example", "a b", "a%2f%2fevil", "é\xff", "a?b", "x@evil.example", "a\tb", "https://evil.example/", "a;b", "a+b", "..", "%", "%zz"} {
+		for _, method := range []string{"GET", "POST"} {
+			req := verifNewRequest(method, logoutPath, nil)
+			if u != "" {
+				ck := env.cookie(u, AuthTypePassword)
+				req.AddCookie(ck)
+				if info, err := env.state.getAuthInfoFromAuthJWT(ck.Value); err == nil {
+					u = info.Username // the name as the session really carries it (JSON may have replaced bytes)
+				}
+			}
+			rr, _ := env.serve(req)
+			if rr.Code != 302 {
+				res.hit(verifHit{Key: "C17:harness:logout-status", Oracle: "harness", What: fmt.Sprintf("logout answered %d", rr.Code), Case: u})
+				continue
+			}
+			loc := rr.Header().Get("Location")
+			target := "/"
+			if u != "" {
+				target = "/?user=" + u
+			}
+			_, perr := url.Parse(target)
+			logouts = append(logouts, logoutObs{user: u, loc: loc, pf: perr != nil})
+			res.eval("logout\x00"+u+"\x00"+loc, u != "")
+			res.bump("via:logoutHandler")
+			if !verifSameOrigin(loc) {
+				res.hit(verifHit{Key: "C17:offorigin:logoutHandler", Oracle: "Location resolves off the keymaster origin (WHATWG) or carries control bytes",
+					What: fmt.Sprintf("logout of session user %q yields Location %q", u, loc), Case: map[string]interface{}{"user": []byte(u), "method": method}, Observed: loc})
+			}
 		}
 	}
 	// Coq case file
@@ -508,7 +954,39 @@ func TestVerif_C17(t *testing.T) {
 		sb.WriteString("].\n")
 	}
 	sb.WriteString("Definition c17_mismatches := Eval vm_compute in mismatches c17_bad (" + strings.Join(names, " ++ ") + ").\nPrint c17_mismatches.\n")
-	sb.WriteString("Definition c17_ncases := Eval vm_compute in length (" + strings.Join(names, " ++ ") + ").\nPrint c17_ncases.\n")
+	// (a unary count of > 100 000 cases overflows the stack when it is read back: count per shard, add in N)
+	var lens []string
+	for _, n := range names {
+		lens = append(lens, "N.of_nat (length "+n+")")
+	}
+	sb.WriteString("Definition c17_ncases := Eval vm_compute in (" + strings.Join(lens, " + ") + ")%N.\nPrint c17_ncases.\n")
+	sb.WriteString("Definition flow_cases : list (bool * bool * bs * N * bs * bool * bs) := [\n")
+	for j, f := range flows {
+		sep := ";"
+		if j == len(flows)-1 {
+			sep = ""
+		}
+		sb.WriteString(fmt.Sprintf(" (%s, %s, %s, %d%%N, %s, %s, %s)%s\n", coqBool(f.force), coqBool(f.comeback), coqPacked([]byte(f.u)), f.kind, coqPacked([]byte(f.posted)), coqBool(f.pf), coqPacked([]byte(f.loc)), sep))
+	}
+	sb.WriteString("].\nDefinition c17_flow_mismatches := Eval vm_compute in mismatches c17_flow_bad flow_cases.\nPrint c17_flow_mismatches.\n")
+	sb.WriteString("Definition page_cases : list (bool * bs * bs * bs * bs) := [\n")
+	for j, pg := range pages {
+		sep := ";"
+		if j == len(pages)-1 {
+			sep = ""
+		}
+		sb.WriteString(fmt.Sprintf(" (%s, %s, %s, %s, %s)%s\n", coqBool(pg.comeback), coqPacked([]byte(pg.u)), coqPacked([]byte(pg.eu)), coqPacked([]byte(pg.eprof)), coqPacked([]byte(pg.hidden)), sep))
+	}
+	sb.WriteString("].\nDefinition c17_page_mismatches := Eval vm_compute in mismatches c17_page_bad page_cases.\nPrint c17_page_mismatches.\n")
+	sb.WriteString("Definition logout_cases : list (bool * bs * bs) := [\n")
+	for j, l := range logouts {
+		sep := ";"
+		if j == len(logouts)-1 {
+			sep = ""
+		}
+		sb.WriteString(fmt.Sprintf(" (%s, %s, %s)%s\n", coqBool(l.pf), coqPacked([]byte(l.user)), coqPacked([]byte(l.loc)), sep))
+	}
+	sb.WriteString("].\nDefinition c17_logout_mismatches := Eval vm_compute in mismatches c17_logout_bad logout_cases.\nPrint c17_logout_mismatches.\n")
 	if err := ioutil.WriteFile(filepath.Join(verifOut(), "CasesC17.v"), []byte(sb.String()), 0644); err != nil {
 		t.Fatal(err)
 	}
@@ -518,6 +996,21 @@ func TestVerif_C17(t *testing.T) {
 		idx.WriteString(fmt.Sprintf("%d\t%q\t%q\t%v\t%s\n", i, o.in, o.loc, o.pf, o.via))
 	}
 	ioutil.WriteFile(filepath.Join(verifOut(), "CasesC17.idx"), []byte(idx.String()), 0644)
+	var fidx strings.Builder
+	for i, f := range flows {
+		fidx.WriteString(fmt.Sprintf("%d\t%s\turl=%q\tprompt-kind=%d\tposted=%q\tlocation=%q\n", i, f.desc, f.u, f.kind, f.posted, f.loc))
+	}
+	ioutil.WriteFile(filepath.Join(verifOut(), "CasesC17flow.idx"), []byte(fidx.String()), 0644)
+	var pidx strings.Builder
+	for i, pg := range pages {
+		pidx.WriteString(fmt.Sprintf("%d\t%s\turl=%q\thidden=%q\n", i, pg.desc, pg.u, pg.hidden))
+	}
+	ioutil.WriteFile(filepath.Join(verifOut(), "CasesC17page.idx"), []byte(pidx.String()), 0644)
+	var lidx strings.Builder
+	for i, l := range logouts {
+		lidx.WriteString(fmt.Sprintf("%d\tuser=%q\tlocation=%q\n", i, l.user, l.loc))
+	}
+	ioutil.WriteFile(filepath.Join(verifOut(), "CasesC17logout.idx"), []byte(lidx.String()), 0644)
 	res.sample(map[string]interface{}{"login_destination": "/a/../b?x=1", "via": "loginHandler"})
 	for _, o := range all[len(all)-3:] {
 		res.sample(map[string]interface{}{"login_destination": o.in, "location": o.loc, "via": o.via})
